@@ -160,6 +160,23 @@ def scale_up_for_eps(rng, c):
     return eps
 
 
+def scale_down_for_tiny_eps(rng, c):
+    """a user threshold BELOW machine epsilon (0, 1e-30, -1e-40, 1e-300; f32: 0, 1e-12, -1e-20) on a problem scaled DOWN through the
+    weights (2^-60, f32: 2^-30), so that every singular value of W Phi lies between the user's threshold and machine epsilon:
+    the threshold is absolute and the user's — nothing may be truncated. Returns eps."""
+    sc = c["scalar"]
+    eps = rng.choice([0.0, 1e-30, -1e-40, 1e-300] if sc == "f64" else [0.0, 1e-12, -1e-20])
+    N = c["meta"]["N"]
+    c["build"] = [o for o in c["build"] if o[0] not in ("weights", "eps")]
+    k = 2.0 ** (-60 if sc == "f64" else -30)
+    c["build"].append(["weights", [hx(k * rng.choice([1.0, 0.5, 2.0]), sc) for _ in range(N)]])
+    c["build"].append(["eps", hx(eps, sc)])
+    rng.shuffle(c["build"])
+    c["meta"]["weights"] = "scaled_down"
+    c["meta"]["eps"] = eps
+    return eps
+
+
 SCALABLE = ("exp2c", "gaussc")     # every parameter of these families is a length / position on the x axis
 
 
